@@ -116,7 +116,10 @@ def gen_spec(rng, max_world=8, checkpoint=False, clip=None, topo=None, deep=0.1)
     spec['fdt'] = 'float32' if rng.random() < 0.25 else None
     # a loss scale handed to the preconditioner through grad_scaler (the sharded run scales the loss and unscales the gradients
     # before step(); the unsharded reference uses no scale at all)
-    spec['scale'] = rng.choice([128.0, 1024.0, 65536.0]) if rng.random() < 0.25 else None   # a factor dtype different from the (float64) weight dtype
+    spec['scale'] = rng.choice([128.0, 1024.0, 65536.0]) if rng.random() < 0.25 else None
+    # a damping that changes from step to step (callable), also between two inverse updates; multipliers >= 1, so
+    # spec['damping'] stays the smallest damping of the run (the one the conditioning estimates use)
+    spec['damping_mult'] = [1.0, rng.choice([1.5, 3.0]), rng.choice([2.0, 10.0])] if rng.random() < 0.25 else None   # a factor dtype different from the (float64) weight dtype
     hist = [('train',)] * rng.randint(1, 4)
     if checkpoint:
         pos = rng.randint(1, len(hist))
@@ -129,6 +132,13 @@ def gen_spec(rng, max_world=8, checkpoint=False, clip=None, topo=None, deep=0.1)
 
 
 # ------------------------------------------------------------------ model construction
+def damping_of(spec):
+    if spec.get('damping_mult'):
+        mult, d0 = list(spec['damping_mult']), spec['damping']
+        return lambda step: d0 * mult[step % len(mult)]
+    return spec['damping']
+
+
 def kinds_of(spec, stage):
     out = []
     for b in spec['blocks'][stage]:
@@ -251,7 +261,7 @@ def sharded_rank_fn(spec, tmpdir=None):
                 warnings.simplefilter('ignore')
                 p = GPTNeoXKFACPreconditioner(
                     model, data_parallel_group=dpg, model_parallel_group=mpg, pipeline_parallel_group=ppg,
-                    damping=spec['damping'], kl_clip=spec['kl'], lr=spec.get('lr', 0.1), allreduce_bucket_cap_mb=spec['cap'],
+                    damping=damping_of(spec), kl_clip=spec['kl'], lr=spec.get('lr', 0.1), allreduce_bucket_cap_mb=spec['cap'],
                     factor_update_steps=spec['F'], inv_update_steps=spec['I'], update_factors_in_hook=spec['hook'],
                     accumulation_steps=spec['acc'], assignment_strategy=spec['strategy'], symmetry_aware=spec['sym'],
                     factor_dtype=(getattr(torch, spec['fdt']) if spec.get('fdt') else None),
@@ -377,7 +387,7 @@ def unsharded_rank_fn(spec):
         model = _Stages(chains)
         with warnings.catch_warnings():
             warnings.simplefilter('ignore')
-            p = KFACPreconditioner(model, damping=spec['damping'], kl_clip=spec['kl'], lr=spec.get('lr', 0.1), allreduce_bucket_cap_mb=0.0,
+            p = KFACPreconditioner(model, damping=damping_of(spec), kl_clip=spec['kl'], lr=spec.get('lr', 0.1), allreduce_bucket_cap_mb=0.0,
                                    factor_update_steps=spec['F'], inv_update_steps=spec['I'], update_factors_in_hook=spec['hook'],
                                    accumulation_steps=spec['acc'], compute_method='eigen', compute_eigenvalue_outer_product=False,
                                    factor_dtype=(getattr(torch, spec['fdt']) if spec.get('fdt') else None))
